@@ -680,6 +680,7 @@ impl RepositoryEditor {
         let _extra = self.snapshot_extra.clone().unwrap_or_default();
 
         let mut snapshot = Snapshot::new(SPEC_VERSION.to_string(), version, expires);
+        snapshot._extra = _extra;
 
         // Snapshot stores metadata about targets and root
         let targets_meta = Self::snapshot_meta(signed_targets);
